@@ -16,6 +16,8 @@ package twins
 //@   ensures [count] old(len(g.indices)) > 0 ==> err == nil && g.remaining == old(g.remaining) - 1 && len(s) == g.settings.Views
 //@   ensures [selection] err == nil ==> forall i int :: {s[i]} 0 <= i && i < len(s) ==> s[i] == g.leadersPartitions[old(g.indices[i]) + g.offsets[i] < len(g.leadersPartitions) ? old(g.indices[i]) + g.offsets[i] : old(g.indices[i]) + g.offsets[i] - len(g.leadersPartitions)]
 //@   ensures [last-exhausts] old(len(g.indices)) > 0 && (forall i int :: {old(g.indices[i])} 0 <= i && i < old(len(g.indices)) ==> old(g.indices[i]) == len(g.leadersPartitions) - 1) ==> len(g.indices) == 0
+//@   ensures [exhausted-only-after-last] old(len(g.indices)) > 0 && len(g.indices) == 0 ==> (forall i int :: {old(g.indices[i])} 0 <= i && i < old(len(g.indices)) ==> old(g.indices[i]) == len(g.leadersPartitions) - 1)
+//@   ensures [successor] len(g.indices) > 0 ==> (exists j int :: {g.indices[j]} 0 <= j && j < len(g.indices) && g.indices[j] == old(g.indices[j]) + 1 && (forall k int :: {g.indices[k]} 0 <= k && k < j ==> g.indices[k] == old(g.indices[k])) && (forall k int :: {g.indices[k]} j < k && k < len(g.indices) ==> g.indices[k] == 0 && old(g.indices[k]) == len(g.leadersPartitions) - 1))
 //@   loop 0 invariant [sel] forall k int :: {p[k]} 0 <= k && k <= rangeindex ==> p[k] == g.leadersPartitions[g.indices[k] + g.offsets[k] < len(g.leadersPartitions) ? g.indices[k] + g.offsets[k] : g.indices[k] + g.offsets[k] - len(g.leadersPartitions)]
 //@   loop 0 invariant [p] len(p) == g.settings.Views && fresh(p)
 //@   loop 1 invariant [wf] -1 <= i && i < old(len(g.indices)) && old(len(g.indices)) == g.settings.Views && (i >= 0 ==> len(g.indices) == old(len(g.indices))) && (i < 0 && old(len(g.indices)) > 0 ==> len(g.indices) == 0) && (len(g.indices) == 0 || len(g.indices) == old(len(g.indices))) && samearr(g.indices, old(g.indices))
